@@ -47,6 +47,8 @@ SOURCE_OBLIGATIONS = [
     "JanetModel.Props.C06.registration_kept",
     "JanetModel.Props.C06.no_suspended_matchable",
     "JanetModel.Props.C06.terminates_when_matchable_full",
+    "JanetModel.Props.C06.order_per_giver_handout",
+    "JanetModel.Props.C06.order_per_giver_taker",
     "JanetModel.Props.C06.noSelfMatch_needed",
     "JanetModel.Props.C06.current_good",
     "JanetModel.Props.C06.no_lost_wakeup_partial",
@@ -293,7 +295,7 @@ def run(ctx, only=None):
     try:
         ctx.gen("Ev.lean", gen_ev.render(tree))
         cfgbits = gen_ev.cfg_bits(tree)
-        ctx.say("Gen/Ev.lean: cfg bits (pushStrict choiceStrict choiceSeesReader popSkipsStale closeChecks) = %s" % cfgbits)
+        ctx.say("Gen/Ev.lean: cfg bits (pushStrict choiceStrict choiceSeesReader popSkipsStale closeChecks resumeBumps) = %s" % cfgbits)
     except ExtractError as e:
         broken.append("translator tools/gen/ev.py: %s" % e)
         ctx.broken.append(broken[-1])
